@@ -1669,8 +1669,200 @@ def desugar_struct_consts(tree):
     return n
 
 
+def desugar_state_singletons(tree, known):
+    """A private class without bases whose ``__init__`` only sets
+    attributes of ``self`` to constants, instantiated exactly once at module
+    level (``_S = _C()``) and used only as ``_S.attr`` / ``_S.method(..)``:
+    the attributes become module globals ``_S_attr`` and the methods
+    module-level functions ``_C_method`` (``self.x`` -> the global, with a
+    ``global`` declaration).  The object was nothing but a name space."""
+    notes = []
+    classes = {st.name: st for st in tree.body
+               if isinstance(st, ast.ClassDef) and st.name.startswith('_')
+               and not st.bases and not st.keywords
+               and not st.decorator_list}
+    for cname, cd in list(classes.items()):
+        insts = [st for st in tree.body
+                 if isinstance(st, ast.Assign) and len(st.targets) == 1
+                 and isinstance(st.targets[0], ast.Name)
+                 and isinstance(st.value, ast.Call)
+                 and isinstance(st.value.func, ast.Name)
+                 and st.value.func.id == cname and not st.value.args
+                 and not st.value.keywords]
+        if len(insts) != 1:
+            continue
+        iname = insts[0].targets[0].id
+        # the class is referenced nowhere else
+        if sum(1 for x in ast.walk(tree) if isinstance(x, ast.Name)
+               and x.id == cname) != 1:
+            continue
+        meths = {}
+        ok = True
+        for st in cd.body:
+            if isinstance(st, ast.Expr) and isinstance(st.value,
+                                                       ast.Constant):
+                continue
+            if not isinstance(st, ast.FunctionDef) or st.decorator_list or \
+                    not st.args.args or st.args.vararg or st.args.kwarg:
+                ok = False
+                break
+            if st.name.startswith('__') and st.name.endswith('__') and \
+                    st.name != '__init__':
+                ok = False
+                break
+            meths[st.name] = st
+        if not ok:
+            continue
+        init = meths.get('__init__')
+        attrs = {}
+        if init is not None:
+            if len(init.args.args) != 1:
+                continue
+            me = init.args.args[0].arg
+            for st in init.body:
+                if isinstance(st, ast.Expr) and isinstance(st.value,
+                                                           ast.Constant):
+                    continue
+                if isinstance(st, ast.Assign) and len(
+                        st.targets) == 1 and isinstance(
+                            st.targets[0], ast.Attribute) and isinstance(
+                                st.targets[0].value, ast.Name) and \
+                        st.targets[0].value.id == me and isinstance(
+                            st.value, (ast.Constant, ast.List, ast.Dict,
+                                       ast.Tuple, ast.Set, ast.UnaryOp)):
+                    attrs[st.targets[0].attr] = st.value
+                else:
+                    ok = False
+                    break
+        if not ok:
+            continue
+        # every use of the instance: _S.attr or _S.method(...)
+        uses = [x for x in ast.walk(tree) if isinstance(x, ast.Name)
+                and x.id == iname]
+        par = {}
+        for p_ in ast.walk(tree):
+            for c_ in ast.iter_child_nodes(p_):
+                par[id(c_)] = p_
+        for u in uses:
+            pu = par.get(id(u))
+            if u is insts[0].targets[0]:
+                continue
+            if not (isinstance(pu, ast.Attribute) and pu.value is u):
+                ok = False
+                break
+            if isinstance(u.ctx, ast.Store):
+                ok = False
+                break
+        # self only as self.attr / self.method(..) inside the methods
+        for mname, md in meths.items():
+            me = md.args.args[0].arg
+            for x in ast.walk(md):
+                if isinstance(x, ast.Name) and x.id == me:
+                    px = par.get(id(x))
+                    if not (isinstance(px, ast.Attribute)
+                            and px.value is x):
+                        ok = False
+        # attributes set in other methods count too
+        for mname, md in meths.items():
+            me = md.args.args[0].arg
+            for x in ast.walk(md):
+                if isinstance(x, ast.Attribute) and isinstance(
+                        x.value, ast.Name) and x.value.id == me and \
+                        isinstance(x.ctx, ast.Store):
+                    attrs.setdefault(x.attr, ast.Constant(value=None))
+        if not ok:
+            continue
+        gname = {a: f'{iname}_{a}' for a in attrs}
+        fname = {m_: f'{cname}_{m_}' for m_ in meths if m_ != '__init__'}
+        taken = {x.id for x in ast.walk(tree) if isinstance(x, ast.Name)} | {
+            st.name for st in tree.body
+            if isinstance(st, (ast.FunctionDef, ast.ClassDef))}
+        if any(v in taken for v in list(gname.values())
+               + list(fname.values())):
+            continue
+
+        class R(ast.NodeTransformer):
+
+            def __init__(self_, owner):
+                self_.owner = owner  # the name that denotes the object
+
+            def visit_Attribute(self_, n):
+                n = self_.generic_visit(n)
+                if isinstance(n.value, ast.Name) and \
+                        n.value.id == self_.owner:
+                    if n.attr in gname:
+                        return ast.copy_location(
+                            ast.Name(id=gname[n.attr], ctx=n.ctx), n)
+                    if n.attr in fname:
+                        return ast.copy_location(
+                            ast.Name(id=fname[n.attr], ctx=n.ctx), n)
+                return n
+
+        new_funcs = []
+        for mname, md in meths.items():
+            if mname == '__init__':
+                continue
+            me = md.args.args[0].arg
+            fn = ast.FunctionDef(name=fname[mname], args=md.args,
+                                 body=md.body, decorator_list=[],
+                                 returns=md.returns, type_comment=None)
+            fn.args.args = fn.args.args[1:]
+            ast.copy_location(fn, md)
+            fn = R(me).visit(fn)
+            stored = sorted({x.id for x in ast.walk(fn)
+                             if isinstance(x, ast.Name) and isinstance(
+                                 x.ctx, ast.Store)
+                             and x.id in gname.values()})
+            if stored:
+                g = ast.Global(names=stored)
+                ast.copy_location(g, fn)
+                pos = 1 if (fn.body and isinstance(fn.body[0], ast.Expr)
+                            and isinstance(fn.body[0].value,
+                                           ast.Constant)) else 0
+                fn.body.insert(pos, g)
+            new_funcs.append(fn)
+        # globals with their initial values, in place of the class
+        inits = []
+        for a, v in attrs.items():
+            st = ast.Assign(targets=[ast.Name(id=gname[a],
+                                              ctx=ast.Store())], value=v)
+            ast.copy_location(st, cd)
+            inits.append(st)
+        idx = tree.body.index(cd)
+        tree.body[idx:idx + 1] = inits + new_funcs
+        tree.body.remove(insts[0])
+        # uses of the instance in the rest of the module
+        for k, st in enumerate(tree.body):
+            if st in new_funcs or st in inits:
+                continue
+            tree.body[k] = R(iname).visit(st)
+        # functions that store to the new globals need the declaration
+        for st in tree.body:
+            if isinstance(st, ast.FunctionDef) and st not in new_funcs:
+                stored = sorted({x.id for x in ast.walk(st)
+                                 if isinstance(x, ast.Name) and isinstance(
+                                     x.ctx, ast.Store)
+                                 and x.id in gname.values()})
+                if stored:
+                    g = ast.Global(names=stored)
+                    ast.copy_location(g, st)
+                    pos = 1 if (st.body and isinstance(st.body[0], ast.Expr)
+                                and isinstance(st.body[0].value,
+                                               ast.Constant)) else 0
+                    st.body.insert(pos, g)
+        ast.fix_missing_locations(tree)
+        notes.append(f'state object {iname} = {cname}() written as module '
+                     f'globals ({len(attrs)} attributes, {len(new_funcs)} '
+                     'functions)')
+    return notes
+
+
 def inline_new_helpers(tree, modname):
     notes0 = []
+    try:
+        notes0 += desugar_state_singletons(tree, None)
+    except RecursionError:
+        pass
     try:
         k = desugar_struct_consts(tree)
         if k:
